@@ -262,6 +262,54 @@ example : Layout.ok ⟨2, 1, 2, 1, 3, 2⟩ ∧ Layout.inGrid ⟨2, 1, 2, 1, 3, 2
   ⟨by decide, by decide,
    buffered_roundtrip 4 (by decide) ⟨2, 1, 2, 1, 3, 2⟩ (by decide) id (1, 2, 3) (by decide)⟩
 
+/-- **Readers' fallbacks, buffered reader: decode ∘ encode = id** in exact arithmetic, for EVERY
+combination of stored quantities the reader accepts (number density and/or mass density,
+temperature and/or pressure, with or without neutral fractions): the cell state (n, T, x_H) written
+through `Hydro::ionization_to_hydro` and the selected datasets is what
+`BufferedCMacIonizeSnapshotDensityFunction` reconstructs.  Hypotheses: m_p, k, n non-zero,
+1 + x_H ≠ 0, and when the neutral fractions are not stored the cell has the reader's default
+x_H = 1e-6 (otherwise the mean molecular weight is not recoverable). -/
+theorem decodeBuffered_encode (mp k : ℚ) (hmp : mp ≠ 0) (hk : k ≠ 0) (c : Combo) (s : CellState ℚ)
+    (hn : s.n ≠ 0) (hx : 1 + s.xH ≠ 0)
+    (hd : c.numberDensity = true ∨ c.density = true) (ht : c.temperature = true ∨ c.pressure = true)
+    (hf : c.fractions = true ∨ s.xH = 1 / 1000000) :
+    decodeBuffered mp k (encode mp (k / mp) c s) = some s := by
+  obtain ⟨n, T, xH⟩ := s
+  obtain ⟨cn, cd, ct, cp, cf⟩ := c
+  simp only at hn hx hd ht hf
+  have h05 : (0.5 : ℚ) = 1 / 2 := by norm_num
+  have h10 : (1.0 : ℚ) = 1 := by norm_num
+  have h16 : (1.0e-6 : ℚ) = 1 / 1000000 := by norm_num
+  cases cn <;> cases cd <;> cases ct <;> cases cp <;> cases cf <;>
+    simp_all [decodeBuffered, encode] <;> field_simp
+
+/-- **the same for `CMacIonizeSnapshotDensityFunction`** with its two flags (`use_density` needs the
+mass density to be stored, `use_pressure` the pressure) -/
+theorem decodePlain_encode (mp k : ℚ) (hmp : mp ≠ 0) (hk : k ≠ 0) (c : Combo) (s : CellState ℚ)
+    (useDensity usePressure : Bool)
+    (hn : s.n ≠ 0) (hx : 1 + s.xH ≠ 0)
+    (hd : if useDensity then c.density = true else (c.numberDensity = true ∨ c.density = true))
+    (ht : if usePressure then c.pressure = true else (c.temperature = true ∨ c.pressure = true))
+    (hf : c.fractions = true ∨ s.xH = 1 / 1000000) :
+    decodePlain mp k useDensity usePressure (encode mp (k / mp) c s) = some s := by
+  obtain ⟨n, T, xH⟩ := s
+  obtain ⟨cn, cd, ct, cp, cf⟩ := c
+  simp only at hn hx hd ht hf
+  have h05 : (0.5 : ℚ) = 1 / 2 := by norm_num
+  have h10 : (1.0 : ℚ) = 1 := by norm_num
+  have h16 : (1.0e-6 : ℚ) = 1 / 1000000 := by norm_num
+  cases useDensity <;> cases usePressure <;>
+  cases cn <;> cases cd <;> cases ct <;> cases cp <;> cases cf <;>
+    simp_all [decodePlain, encode] <;> (try field_simp) <;> (try simp)
+
+/-- non-vacuity: only mass density and pressure stored (the combination where the order of the two
+fallback statements matters), a cell with n = 10⁶, T = 8000, x_H = 1/4 -/
+example : decodeBuffered (α := ℚ) (1 / 10 ^ 27) (1 / 10 ^ 23)
+    (encode (1 / 10 ^ 27) ((1 / 10 ^ 23) / (1 / 10 ^ 27)) ⟨false, true, false, true, true⟩ ⟨10 ^ 6, 8000, 1 / 4⟩) =
+    some ⟨10 ^ 6, 8000, 1 / 4⟩ :=
+  decodeBuffered_encode _ _ (by norm_num) (by norm_num) _ _ (by norm_num) (by norm_num)
+    (by decide) (by decide) (by decide)
+
 end CMacVerif.Snapshot
 
 namespace CMacVerif.Units
